@@ -31,7 +31,8 @@ RULE = ("case = (scenario: 'multi' = Discovery+DHTDiscovery+HiddenTunnel+Attesta
         "first genuine datagram of every (prefix, msg id, cell label) seen by the victim; every msg id 0..255 with empty and "
         "foreign body for each overlay prefix; all lengths 0..64 of zero/0xff/seeded content with and without a valid "
         "prefix; length fields overwritten with 0xff/0xffff at every position; crafted cells for live circuit/relay/exit "
-        "ids with bodies 0..12 bytes and all flag combinations; every byte bumped by +1/+2/+9/-1 (parts that claim slightly more "
+        "ids with bodies 0..12 bytes and all flag combinations; correctly ENCRYPTED cells (the sender holds the circuit's session keys) "
+        "with empty, one-byte (message ids 0..23) and short random messages; every byte bumped by +1/+2/+9/-1 (parts that claim slightly more "
         "or less than they have); sampled random bytes up to 1500; load_snapshot on every "
         "truncation of a genuine snapshot; every Serializable class that was decoded during the run is handed every prefix, "
         "every single-byte bump / 0xff rewrite, extensions and random strings of its genuine encoding directly through "
@@ -40,11 +41,12 @@ RULE = ("case = (scenario: 'multi' = Discovery+DHTDiscovery+HiddenTunnel+Attesta
         "branch (right prefix, registered msg id); distinct by (overlay, msg id, length, kind).")
 COMPONENTS = {"real": ["UDPEndpoint.datagram_received", "Endpoint.notify_listeners", "Community.on_packet",
                        "PythonCryptoEndpoint.on_packet/process_cell", "TunnelCommunity.on_cell", "lazy_community wrappers",
+                       "StatisticsEndpoint.on_packet (every second case)",
                        "Serializer and all registered Packers", "Network.load_snapshot"],
               "stub": ["UDP/IP (SimNet)", "wall clock", "OS RNG"]}
 ASSUMPTIONS = ["the native ipv8_rust_tunnels.Endpoint is not covered (PythonCryptoEndpoint is what runs)"]
-REACH = ["inj:prefix", "inj:msgid", "inj:short", "inj:lenrewrite", "inj:lenbump", "inj:cell", "inj:random", "reached_handler",
-         "direct_decode", "direct_decode_accepted", "codec_classes",
+REACH = ["inj:prefix", "inj:msgid", "inj:short", "inj:lenrewrite", "inj:lenbump", "inj:cell", "inj:keyed_cell", "inj:random", "reached_handler",
+         "direct_decode", "direct_decode_accepted", "codec_classes", "statistics_endpoint_listening",
          "cell_branch_circuit", "cell_branch_exit", "decode_exact_end", "snapshot_truncations"]
 
 SINGLE = ["community", "discovery", "dhtdiscovery", "hidden", "attestation", "identity", "pex"]
@@ -225,11 +227,19 @@ def execute(case: dict) -> dict:  # noqa: C901, PLR0915
         victim = nodes[case["victim"] % len(nodes)]
         ovs = list(getattr(victim, "ovs", {"only": victim.ov}).values())
         ep = victim.raw_endpoint
+        prefixes = [ov.get_prefix() for ov in ovs]
+        if case.get("stats", case["seed"] % 2 == 0):
+            # the node runs with message statistics on (ipv8_service.IPv8(enable_statistics=True)): the statistics endpoint listens on
+            # the raw endpoint BEFORE the witnesses, tracking the overlays' prefixes
+            from ipv8.messaging.interfaces.statistics_endpoint import StatisticsEndpoint
+            stats_ep = victim.call(StatisticsEndpoint, ep)
+            for pfx in [*prefixes, foreign_prefix]:
+                stats_ep.enable_community_statistics(pfx, True)
+            world.probe("statistics_endpoint_listening")
         w_general = victim.call(Witness, ep)
         w_foreign = victim.call(Witness, ep)
         ep.add_listener(w_general)
         ep.add_prefix_listener(w_foreign, foreign_prefix)
-        prefixes = [ov.get_prefix() for ov in ovs]
 
         # handler-entry probes (decode_map level: covers cells and handlers without lazy wrappers)
         def wrap_map(ov, attr) -> None:  # noqa: ANN001
@@ -344,6 +354,29 @@ def execute(case: dict) -> dict:  # noqa: C901, PLR0915
                         inject("cell", d[:22] + b"\x00" + cid + flags + d[29:])
                     for cut in range(23, 30):
                         inject("cell", d[:cut])
+            # H. cells from a peer that HOLDS the session keys of a live circuit (anybody can become one by sending a create):
+            # correctly encrypted, with empty / one-byte / short / random messages
+            for ov in ovs:
+                ce = getattr(ov, "crypto_endpoint", None)
+                if ce is None or not hasattr(ce, "encrypt_cell"):
+                    continue
+                from ipv8.messaging.anonymization.payload import CellPayload
+                from ipv8.messaging.anonymization.tunnel import BACKWARD, FORWARD
+                targets = [(cid, FORWARD, (es.hop,)) for cid, es in sorted(ov.exit_sockets.items())] + \
+                          [(cid, BACKWARD, tuple(ci.hops)) for cid, ci in sorted(ov.circuits.items()) if ci.hops]
+                for cid, direction, hops in targets:
+                    if ("keyed", cid) in done_types or len([k for k in done_types if k[0] == "keyed"]) >= 4:
+                        continue
+                    done_types.add(("keyed", cid))
+                    msgs = [b"", *[bytes([m]) for m in range(0, 24)], *[bytes([m]) + rng.randbytes(rng.choice([1, 3, 9])) for m in range(0, 24, 2)]]
+                    for msg in msgs:
+                        for early in (False, True):
+                            cell = CellPayload(cid, msg, False, early)
+                            try:
+                                ce.encrypt_cell(cell, direction, *hops)
+                            except Exception:  # noqa: BLE001, S112
+                                continue
+                            inject("keyed_cell", cell.to_bin(ce.prefix))
             if i == 0:
                 bodies = [d[23:] for d in list(captured.values())[:3]] or [b"\x00" * 40]
                 for pfx in [*prefixes, foreign_prefix]:
